@@ -3,6 +3,7 @@ package main
 import (
 	"bufio"
 	"bytes"
+	"encoding/json"
 	"fmt"
 	"go/ast"
 	"go/constant"
@@ -28,8 +29,33 @@ type bceSite struct {
 }
 
 // bceLog runs `go build -gcflags=-d=ssa/check_bce/debug=1` for the packages (compile only, nothing is executed).
-func bceLog(repo string, pkgs []string) ([]bceSite, error) {
-	args := append([]string{"build", "-gcflags=-d=ssa/check_bce/debug=1"}, pkgs...)
+func bceLog(repo string, pkgs []string, overlay map[string][]byte) ([]bceSite, error) {
+	args := []string{"build", "-gcflags=-d=ssa/check_bce/debug=1"}
+	if len(overlay) > 0 {
+		// compile the same (in-memory) variant the analysis sees
+		tmp, err := os.MkdirTemp("", "maddyverif-bce-")
+		if err != nil {
+			return nil, err
+		}
+		defer os.RemoveAll(tmp)
+		repl := map[string]string{}
+		i := 0
+		for path, data := range overlay {
+			i++
+			f := filepath.Join(tmp, fmt.Sprintf("f%d.go", i))
+			if err := os.WriteFile(f, data, 0o644); err != nil {
+				return nil, err
+			}
+			repl[path] = f
+		}
+		js, _ := json.Marshal(map[string]interface{}{"Replace": repl})
+		ov := filepath.Join(tmp, "overlay.json")
+		if err := os.WriteFile(ov, js, 0o644); err != nil {
+			return nil, err
+		}
+		args = append(args, "-overlay="+ov)
+	}
+	args = append(args, pkgs...)
 	cmd := exec.Command("go", args...)
 	cmd.Dir = repo
 	cmd.Env = append(os.Environ(), "GOFLAGS=-mod=mod", "GOPROXY=off", "GOSUMDB=off", "GOWORK=off", "GOTOOLCHAIN=local")
